@@ -1027,6 +1027,13 @@ impl Model {
                             &format!("udp-answered:{}", why),
                             format!("datagram must not be answered ({}) but got {}", why, hex(u.payload)),
                         ));
+                        // the property of the responder that DID answer owns it too ("malformed /
+                        // unknown ... are not answered" is a clause of each application property)
+                        if let Some(rp) = responder_property(u.payload) {
+                            if rp != *prop {
+                                j.findings.push(finding(rp, &format!("answered-what-is-no-request:{}", why), format!("a datagram that is no valid request ({}) was answered by this property's responder: {}", why, hex(&u.payload[..u.payload.len().min(48)]))));
+                            }
+                        }
                     }
                     (AppVerdict::Unspecified(why), u) => {
                         j.class = format!("udp-abstain:{}", if u.is_some() { "answered" } else { "silent" });
@@ -1133,6 +1140,11 @@ impl Model {
                         &format!("tcp-answered:{}", why),
                         format!("segment must get a bare ACK ({}) but carried {}", why, hex(payload)),
                     ));
+                    if let Some(rp) = responder_property(payload) {
+                        if rp != *prop {
+                            j.findings.push(finding(rp, &format!("answered-what-is-no-request:{}", why), format!("a stream that is no valid request ({}) was answered by this property's responder: {}", why, hex(&payload[..payload.len().min(48)]))));
+                        }
+                    }
                 }
             }
             AppVerdict::Unspecified(why) => {
@@ -1165,5 +1177,29 @@ impl Model {
                 }
             }
         }
+    }
+}
+
+/// The application property whose responder produced this reply payload (by the shape of the
+/// reply: status line, banner, Gh0st magic, STUN success header, SMB magic, ONC-RPC reply, DNS
+/// response header).
+pub fn responder_property(rep: &[u8]) -> Option<&'static str> {
+    if rep.starts_with(b"HTTP/1.") {
+        Some("C13")
+    } else if rep.starts_with(b"SSH-") || rep.starts_with(b"Gh0st") {
+        Some("C18")
+    } else if rep.len() >= 20 && rep[0] == 0x01 && rep[1] == 0x01 && u16::from_be_bytes([rep[2], rep[3]]) as usize == rep.len() - 20 {
+        Some("C15")
+    } else if rep.len() >= 8 && (rep[4..8] == [0xff, b'S', b'M', b'B'] || rep[4..8] == [0xfe, b'S', b'M', b'B']) {
+        Some("C17")
+    } else if rep.len() >= 16 && rep[0] & 0x80 != 0 && (u32::from_be_bytes([rep[0] & 0x7f, rep[1], rep[2], rep[3]]) as usize) == rep.len() - 4 && rep[8..12] == [0, 0, 0, 1] {
+        Some("C16")
+    } else if rep.len() >= 12 && rep[4..8] == [0, 0, 0, 1] && rep[8..12] == [0, 0, 0, 0] {
+        Some("C16")
+    } else if rep.len() >= 12 && rep[2] & 0x80 != 0 && rep[2] & 0x04 != 0 {
+        // QR and AA set: the DNS fallback's answer
+        Some("C14")
+    } else {
+        None
     }
 }
